@@ -21,6 +21,7 @@ def gen_spec(rng: random.Random, small=False) -> dict:
         "n_steps": rng.randint(1, 5 if small else 8),
         "pop": rng.choice([0, 1, 2, 7, 15, 30]),
         "seed": rng.randint(0, 10_000),
+        "additional_seed": rng.choice([None, None, 0, 3, 12345]),
         "crn_keys": rng.choice([0, 1, 2, 2, 3]),
         "map_size": rng.choice([997, 10_007, 100_003]),
         "births": [rng.randint(0, 3) for _ in range(rng.randint(1, 3))],
